@@ -106,20 +106,21 @@ pub fn cmd_parse(o: &Opts) -> Result<(), String> {
             Ok(Ok(tree)) => {
                 let mut names: Vec<(Vec<String>, usize)> = tree.named_groups.iter().map(|(k, v)| (ctoks(k), *v)).collect();
                 names.sort();
-                json!({"id": r["id"], "chars": chars, "chars0": chars0, "sametree": sametree, "st": "ok", "tree": etree(&tree.expr), "names": names, "kind": "", "pos": -1})
+                let brefs: Vec<usize> = tree.backrefs.iter().collect();
+                json!({"id": r["id"], "chars": chars, "chars0": chars0, "sametree": sametree, "st": "ok", "tree": etree(&tree.expr), "names": names, "brefs": brefs, "kind": "", "pos": -1})
             }
             Ok(Err(fancy_regex::Error::ParseError(pos, e))) => {
                 let k = format!("{:?}", e);
                 let k: String = k.chars().take_while(|c| c.is_ascii_alphanumeric()).collect();
-                json!({"id": r["id"], "chars": chars, "chars0": chars0, "sametree": sametree, "st": "err", "tree": {"k": "Empty"}, "names": [], "kind": k, "pos": pos.min(i32::MAX as usize)})
+                json!({"id": r["id"], "chars": chars, "chars0": chars0, "sametree": sametree, "st": "err", "tree": {"k": "Empty"}, "names": [], "brefs": [], "kind": k, "pos": pos.min(i32::MAX as usize)})
             }
             Ok(Err(fancy_regex::Error::CompileError(e))) => {
                 let k = format!("{:?}", e);
                 let k: String = k.chars().take_while(|c| c.is_ascii_alphanumeric()).collect();
-                json!({"id": r["id"], "chars": chars, "chars0": chars0, "sametree": sametree, "st": "err", "tree": {"k": "Empty"}, "names": [], "kind": k, "pos": -1})
+                json!({"id": r["id"], "chars": chars, "chars0": chars0, "sametree": sametree, "st": "err", "tree": {"k": "Empty"}, "names": [], "brefs": [], "kind": k, "pos": -1})
             }
-            Ok(Err(_)) => json!({"id": r["id"], "chars": chars, "chars0": chars0, "sametree": sametree, "st": "err", "tree": {"k": "Empty"}, "names": [], "kind": "Other", "pos": -1}),
-            Err(_) => json!({"id": r["id"], "chars": chars, "chars0": chars0, "sametree": sametree, "st": "panic", "tree": {"k": "Empty"}, "names": [], "kind": "", "pos": -1}),
+            Ok(Err(_)) => json!({"id": r["id"], "chars": chars, "chars0": chars0, "sametree": sametree, "st": "err", "tree": {"k": "Empty"}, "names": [], "brefs": [], "kind": "Other", "pos": -1}),
+            Err(_) => json!({"id": r["id"], "chars": chars, "chars0": chars0, "sametree": sametree, "st": "panic", "tree": {"k": "Empty"}, "names": [], "brefs": [], "kind": "", "pos": -1}),
         };
         writeln!(files[i % shards], "{}", rec).map_err(|e| e.to_string())?;
     }
